@@ -19,7 +19,7 @@
 (* answered either way but never change the state; which 4xx/5xx code is   *)
 (* used is not constrained.                                                *)
 (***************************************************************************)
-EXTENDS Naturals, Sequences, FiniteSets
+EXTENDS Naturals, Sequences, FiniteSets, RFC2326
 
 VARIABLES state,      \* "none" | "initial" | "prePlay" | "play" | "preRecord" | "record"
           udp,        \* the session's media transport is UDP (unicast or multicast)
@@ -40,35 +40,6 @@ SInit == state = "none" /\ udp = FALSE /\ opened = 0 /\ closedN = 0 /\ tornDown 
          /\ connGone = FALSE /\ cleanup = FALSE /\ pend = NoReq /\ endedIn = "no" /\ unjust = "no"
 SReset == state' = "none" /\ udp' = FALSE /\ opened' = 0 /\ closedN' = 0 /\ tornDown' = FALSE
           /\ connGone' = FALSE /\ cleanup' = FALSE /\ pend' = NoReq /\ endedIn' = "no" /\ unjust' = "no"
-
-\* RFC 2326 A.2 (server state machine); "none" behaves as a fresh session in `initial`
-Succ(st, m) ==
-  CASE st \in {"none", "initial"} /\ m = "SETUP"    -> "prePlay"
-    [] st \in {"none", "initial"} /\ m = "ANNOUNCE" -> "preRecord"
-    [] st = "prePlay"   /\ m = "SETUP"  -> "prePlay"
-    [] st = "prePlay"   /\ m = "PLAY"   -> "play"
-    [] st = "play"      /\ m = "PAUSE"  -> "prePlay"
-    [] st = "preRecord" /\ m = "SETUP"  -> "preRecord"
-    [] st = "preRecord" /\ m = "RECORD" -> "record"
-    [] st = "record"    /\ m = "PAUSE"  -> "preRecord"
-    [] OTHER -> st
-
-HasSucc(st, m) ==
-  \/ st \in {"none", "initial"} /\ m \in {"SETUP", "ANNOUNCE"}
-  \/ st = "prePlay" /\ m \in {"SETUP", "PLAY"}
-  \/ st = "play" /\ m = "PAUSE"
-  \/ st = "preRecord" /\ m \in {"SETUP", "RECORD"}
-  \/ st = "record" /\ m = "PAUSE"
-
-\* requests that are definitely illegal in a state
-Illegal(st, m) ==
-  \/ m = "PLAY"     /\ st \in {"initial", "preRecord", "record"}
-  \/ m = "RECORD"   /\ st \in {"initial", "prePlay", "play", "record"}
-  \/ m = "ANNOUNCE" /\ st \in {"prePlay", "play", "preRecord", "record"}
-  \/ m = "SETUP"    /\ st \in {"play", "record"}
-  \/ m = "PAUSE"    /\ st = "initial"
-
-Ok(status) == status >= 200 /\ status <= 299
 
 \* the request addresses the session: right id, or no id where the id is optional
 Routed(st, m, sh) == sh = "right" \/ (sh = "none" /\ m \in {"SETUP", "ANNOUNCE"})
